@@ -28,6 +28,15 @@ fn proxy_request_internal(
     let mut stream =
         TcpStream::connect_timeout(&target, timeout).map_err(|_| ResponseError::Stream)?;
 
+    // The timeout must also apply once connected, otherwise a target which accepts the connection and then
+    //   stays silent would block this thread forever
+    stream
+        .set_read_timeout(Some(timeout))
+        .map_err(|_| ResponseError::Stream)?;
+    stream
+        .set_write_timeout(Some(timeout))
+        .map_err(|_| ResponseError::Stream)?;
+
     let mut cloned_request = request.clone();
     cloned_request
         .headers
